@@ -669,7 +669,7 @@ class PlanTree:
         for step in self.steps:
             if step["plan"] == plan:
                 actions.append(A.step(step["name"], inp=step["inp"], out=step["out"], optional=step["optional"],
-                                      env_overrides=step.get("ovr")))
+                                      env_overrides=step.get("ovr"), shell=bool(step.get("shell", False))))
         if plan == "root" and getattr(self, "glob_files", None):
             # a named glob with a constrained wildcard: g/inp10.txt is on disk but does not match
             actions.append(A.static(*sorted(p for p in self.glob_files if p != "g/inp10.txt")))
@@ -789,6 +789,10 @@ def mutate_plan_tree(rng, tree: PlanTree, kind: str | None = None) -> tuple[Plan
         plan = rng.choice(candidates)
         new.plans[plan]["dropped"] = False
         return new, f"readd_child:{plan}"
+    if kind == "flip_shell":
+        step = rng.choice(new.steps)
+        step["shell"] = not step.get("shell", False)
+        return new, f"flip_shell:{step['name']}"
     step = rng.choice(new.steps)
     step["optional"] = not step["optional"]
     return new, f"toggle_optional:{step['name']}"
@@ -939,7 +943,7 @@ def gen_tree_source_history(rng):
     source_only = []
     for _ in range(rng.randint(2, 4)):
         old = tree.render()
-        tree, _ = mutate_plan_tree(rng, tree, rng.choice(["touch_plan", "touch_plan", "edit_source"]))
+        tree, _ = mutate_plan_tree(rng, tree, rng.choice(["touch_plan", "touch_plan", "edit_source", "flip_shell"]))
         edits = projgen._edits_between(old, tree.render())
         events.append(("edits", edits))
         source_only.append(sorted(e[1] for e in edits))
